@@ -9,7 +9,7 @@ BASELINE = ("cd /repo && (cargo nextest run --workspace --no-fail-fast --tool-co
 CHECKS = {
  "C19": ("exploration",
          "grammar-based property testing with an independent AST evaluator as oracle (proptest expressions + an exhaustive three-operand space + literal corpus + token soup + pathological inputs with a counting allocator)",
-         "750 k random expression ASTs (numbers with separators / exponents, pi / tau / inf / nan, + - * /, unary signs, parentheses, deg()/rad(), sexagesimal, !degrees / !radians tags, random blanks) rendered to text and compared bit for bit with an evaluator that never parses text; all 62208 three-operand expressions over 6 operands x 4 operators^2 x 3 parenthesisations x 3 tags x 2 targets; every sexagesimal seconds field SS.f / SS.ff / SS.fff (quick: every third) - one decimal literal, bit for bit; 96 k expressions with one documented error; a 96-spelling literal corpus plus 960 k random literals (option on == option off, f32 and f64, incl. f32 rounding midpoints); token soup and raw bytes for totality on a 1 MiB stack; pathological nests / digit runs / sign chains to 2e6 with allocation-count work bounds. Exploration.",
+         "750 k random expression ASTs (numbers with separators / exponents, pi / tau / inf / nan, + - * /, unary signs, parentheses, deg()/rad(), sexagesimal, !degrees / !radians tags, random blanks) rendered to text and compared bit for bit with an evaluator that never parses text; all 62208 three-operand expressions over 6 operands x 4 operators^2 x 3 parenthesisations x 3 tags x 2 targets; every sexagesimal seconds field SS.f / SS.ff / SS.fff (quick: every third) - one decimal literal, bit for bit; first fields of up to 400 digits; 96 k expressions with one documented error; a 96-spelling literal corpus plus 960 k random literals (option on == option off, f32 and f64, incl. f32 rounding midpoints); token soup and raw bytes for totality on a 1 MiB stack; pathological nests / digit runs / sign chains to 2e6 with allocation-count work bounds. Exploration.",
          "where module docs and README disagree (untagged sexagesimal) both readings are accepted; nested unit functions, unknown tags, >1000 digits per token and 256-299 nesting levels are Free; linear work is checked on allocator calls and bytes, not time",
          "DESIGN.md section 3 C19; notes/report-C19.md"),
  "C01": ("exploration",
@@ -28,8 +28,8 @@ CHECKS = {
          "weak edges are only generated when the strong occurrence is complete earlier (documented precondition); empty_as_braces=false and indent_step=1 are outside the domain (C13 findings); one open finding (anchor lost on a block-scalar string - its repair is blocked by a test that pins the anchor-less output) is excluded by signature",
          "DESIGN.md section 3 C14; notes/report-C14.md"),
  "C15": ("exploration",
-         "stateful property-based testing: exhaustive call histories up to length 3 (4 over a core alphabet) + random histories to length 12 over 54 call kinds, every history on a fresh thread; oracle = each call's observation equals the same call alone on a fresh thread",
-         "Histories over 26 base calls (successful / failing mid-anchored-node / failing inside an anchor context / budget and alias limit at the exact limit / shared RcAnchors / missing- and unknown-field errors / root static error / caught panic / duplicate key / multi-document / reader / abandoned and exhausted iterators / serialisation with anchors and into a failing writer / garde-validated parse / validator-crate parse with six failing fields) and 25 nested calls (a parse inside the Deserialize impl of a field of an outer document with anchors before / around / inside): every observation (variant, locations, rendered message, pointer classes - never addresses) equals the isolated one; isolated observations agree across two fresh threads and contain documented constants. All 120099 histories of length <= 3 and 614656 of length 4 over a core alphabet are enumerated.",
+         "stateful property-based testing: exhaustive call histories up to length 3 (4 over a core alphabet) + random histories to length 12 over 55 call kinds, every history on a fresh thread; oracle = each call's observation equals the same call alone on a fresh thread",
+         "Histories over 27 base calls (successful / failing mid-anchored-node / failing inside an anchor context / budget and alias limit at the exact limit / shared RcAnchors / missing- and unknown-field errors / root static error / caught panic / duplicate key / multi-document / reader / abandoned and exhausted iterators / serialisation with anchors and into a failing writer / garde-validated parse / validator-crate parse with six failing fields, also rendered through miette; a callback-style parse nested in a Deserialize impl) and 25 nested calls (a parse inside the Deserialize impl of a field of an outer document with anchors before / around / inside): every observation (variant, locations, rendered message, pointer classes - never addresses) equals the isolated one; isolated observations agree across two fresh threads and contain documented constants. All 120099 histories of length <= 3 and 614656 of length 4 over a core alphabet are enumerated.",
          "observations are compared as strings built from variant, locations, messages and pointer-equality classes; Debug of validation errors (HashMap order) is not used",
          "DESIGN.md section 3 C15; notes/report-C15.md"),
  "C05": ("exploration",
@@ -59,7 +59,7 @@ CHECKS = {
          "DESIGN.md section 3 C10; notes/report-C10.md"),
  "C17": ("exploration",
          "property-based testing of rendered reports with a layout parser as oracle: exhaustive cube around the error column + generated failing (input, target) pairs x renderers (Display, render_with_options x formatters x SnippetMode, miette handlers)",
-         "2365 reflecting documents (escapes, raw controls, wide and bidi text reflected through unknown field / variant, duplicate key, invalid type, custom messages, tags, validation paths, alias errors), an exhaustive cube of 15840 cases (character class x prefix x suffix x radius x context shape) around the error column, 10-20 k character lines, inputs beyond the 3 KiB reader window, two-window alias reports (also with the definition site beyond column 65535), token soup and mutated seeds; for every rendering: no panic, no C0 (except newline / tab) / DEL / C1, at most 5 consecutive source lines within [L-2, L+2] containing L, each shown line a fragment of the input line with that number, cropping within the documented radius, caret under the reported column (display columns). Exploration.",
+         "2365 reflecting documents (escapes, raw controls, wide and bidi text reflected through unknown field / variant, duplicate key, invalid type, custom messages, tags, validation paths, alias errors), an exhaustive cube of 15840 cases (character class x prefix x suffix x radius x context shape) around the error column, 10-20 k character lines, inputs beyond the 3 KiB reader window, two-window alias reports (also with the definition site beyond column 65535), token soup and mutated seeds; for every rendering: no panic, no C0 (except newline / tab) / DEL / C1, at most 5 consecutive source lines within [L-2, L+2] containing L, each shown line a fragment of the input line with that number, cropping within the documented radius (context lines left of the window included), caret under the reported column (display columns), two leading byte order marks (one ignored, one counted); the source exposed to miette is the input line by line (CRLF breaks leave no visible character). Exploration.",
          "layout facts are taken from rustdoc / tests and self-checked against annotate-snippets at start-up; undocumented layout (lone CR, multi-line messages, implicit last empty line) is not judged; the harness' custom formatter / localizer is clean by construction; miette's own graphical handler is not run on lines longer than 60000 bytes (third-party formatting-width panic); open findings: marker in a trimmed margin, lone-CR line breaks, second window taken from a region cropped around the first location (lines over 4 KiB; keyed on the failure so that panics on those cases still count)",
          "DESIGN.md section 3 C17; notes/report-C17.md"),
  "C13": ("exploration",
@@ -74,17 +74,17 @@ CHECKS = {
          "DESIGN.md section 3 C08"),
  "C18": ("exploration",
          "model-based property testing with harness-rendered documents and ground-truth positions; exhaustive single/double violated-leaf enumeration + proptest documents/streams; recording Localizer as observation channel",
-         "A fixed family of garde+validator types; documents rendered by the harness with every leaf supplied directly / through aliases / through merges; all 21 leaves x 6 supplies x 7 entry points x 2 crates x 3 styles with one violated leaf, all 210 leaf pairs, random documents and streams: validated entry points == plain ones when nothing is violated; otherwise the reported path set equals the harness-evaluated constraint set, each path's use site / definition site equal the renderer's ground truth (observed through a recording Localizer and Error::locations()), every failing document of a stream is reported; a 260 MiB stream of valid documents gives the same items through read and the validating iterators. Exploration over enumerated and sampled documents.",
+         "A fixed family of garde+validator types; documents rendered by the harness with every leaf supplied directly / through aliases / through merges; all 21 leaves x 6 supplies x 7 entry points x 2 crates x 3 styles with one violated leaf, all 210 leaf pairs, random documents and streams: validated entry points == plain ones when nothing is violated; otherwise the reported path set equals the harness-evaluated constraint set, each path's use site / definition site equal the renderer's ground truth (observed through a recording Localizer and Error::locations()), every failing document of a stream is reported; documents whose root is a sequence of validated structs keep their positions; a 260 MiB stream of valid documents gives the same items through read and the validating iterators. Exploration over enumerated and sampled documents.",
          "trusts the harness' renderer positions and constraint evaluator (cross-checked against the crates' own validate()); use site of values through merges / aliased mappings and locations of validator map entries are not fixed by the docs and only safety-checked",
          "DESIGN.md section 3 C18; notes/report-C18.md"),
  "C07": ("exploration",
          "reference-model property-based testing: an independent counter over raw saphyr-parser events plus a replay model gives the usage U; limits U_c / U_c-1 probe threshold exactness; exhaustive prefix histories for per-document enforcement",
-         "For generated streams (anchors, aliases to containers, nested replay, merges) and a fixed enumeration of small documents: report == independent count, check_yaml_budget == raw count, every limit set to the usage is accepted and usage-1 is rejected with the matching breach at the first exceeding raw event, budgets >= usage never reject, ratio heuristic exact at its boundary; all prefix histories of length <= 3 (thorough 4) over 7 document kinds x 4 final documents x (exact budget, 7 lowered limits, 7 single limits) for per-document independence of the streaming iterator, and the alias/anchor ratio at its boundary for a document alone, after a prefix and before a following document; a breach met during alias replay must still be Error::Budget. Exploration over generated inputs and enumerated histories.",
+         "For generated streams (anchors, aliases to containers, nested replay, merges) and a fixed enumeration of small documents: report == independent count, check_yaml_budget == raw count, every limit set to the usage is accepted and usage-1 is rejected with the matching breach at the first exceeding raw event, budgets >= usage never reject, ratio heuristic exact at its boundary; all prefix histories of length <= 3 (thorough 4) over 7 document kinds x 4 final documents x (exact budget, 7 lowered limits, 7 single limits) for per-document independence of the streaming iterator, and the alias/anchor ratio at its boundary for a document alone, after a prefix and before a following document; the same document twice in one stream under each counter limited to usage / usage-1 (both copies get the verdict of one copy alone); a breach met during alias replay must still be Error::Budget. Exploration over generated inputs and enumerated histories.",
          "trusts the harness' usage model (DESIGN.md Appendix B, written from the Budget rustdoc); breach location is judged only for raw (non-replayed) events; whether the document-start event belongs to the per-document event count is not judged",
          "DESIGN.md section 3 C07, Appendix B"),
  "C11": ("exploration",
-         "model-based property testing: exhaustive sequences over 14 document kinds (length <= 3 / 4) + proptest longer streams; oracle = per-document results composed by a stream model",
-         "All sequences of length <= 3 (thorough 4) over 18 document kinds (incl. empty strings, `!!str null`, bare names of unit and payload enum variants) with rotating text variants, end markers, trailing comments, CRLF and 0-2 leading byte order marks, and random streams up to 8 documents, for untyped, map, String and enum targets; batch (str, slice), the streaming iterator under three read chunkings, and the single-document entry points are compared with a model composed from each document parsed alone (skip empty/null, stop at syntax error, continue after type error, len+2 termination bound, anchors not visible across documents). Exploration over the enumerated space.",
+         "model-based property testing: exhaustive sequences over 20 document kinds (length <= 3 / 4) + proptest longer streams; oracle = per-document results composed by a stream model",
+         "All sequences of length <= 3 (thorough 4) over 20 document kinds (incl. empty strings, `!!str null`, bare names of unit and payload enum variants, tag-selected unit variants, a document with an undeclared tag handle - a parser error after which the parser would go on) with rotating text variants, end markers, trailing comments, CRLF and 0-2 leading byte order marks, and random streams up to 8 documents, for untyped, map, String and enum targets; batch (str, slice), the streaming iterator under three read chunkings, and the single-document entry points are compared with a model composed from each document parsed alone (skip empty/null, stop at syntax error, continue after type error, len+2 termination bound, anchors not visible across documents). Exploration over the enumerated space.",
          "documents are classified by construction (contains a syntax error / empty); behaviour after a document that aliases an earlier document's anchor and trailing empty documents after single-document entry points are not judged",
          "DESIGN.md section 3 C11"),
  "C04": ("exploration",
